@@ -93,6 +93,8 @@ pub struct Runner {
     pub injected: Option<Injected>,
     /// address of the in-process socket server (socket driver)
     pub sock_addr: Option<String>,
+    /// the storage lock was found held for good (socket driver): no further projections are attempted
+    pub stuck: bool,
 }
 
 pub struct Injected {
@@ -145,7 +147,23 @@ impl Runner {
         }
         let clients: Vec<Uuid> = match job["client_uuids"].as_array() {
             Some(a) if a.len() >= ncl => a.iter().take(ncl).filter_map(|x| x.as_str().and_then(|u| Uuid::parse_str(u).ok())).collect(),
-            _ => (0..ncl).map(|_| Uuid::new_v4()).collect(),
+            _ => {
+                // client ids of one run resemble each other the way ids minted on one host do (time-based UUIDs share their
+                // node half): client 2 has the upper 64 bits of client 1, client 3 its lower 64 bits, the stranger both halves
+                // of different clients - an id is only ever the id it is
+                let mut v: Vec<Uuid> = (0..ncl).map(|_| Uuid::new_v4()).collect();
+                if ncl >= 2 {
+                    let (h1, _) = v[0].as_u64_pair();
+                    let (_, l2) = v[1].as_u64_pair();
+                    v[1] = Uuid::from_u64_pair(h1, l2);
+                }
+                if ncl >= 3 {
+                    let (_, l1) = v[0].as_u64_pair();
+                    let (h3, _) = v[2].as_u64_pair();
+                    v[2] = Uuid::from_u64_pair(h3, l1);
+                }
+                v
+            }
         };
         let first_free = job["first_free"].as_i64().unwrap_or(1000);
         shimapi::clock_set_thread(0);
@@ -180,6 +198,7 @@ impl Runner {
             driver2: None,
             injected: None,
             sock_addr: None,
+            stuck: false,
         };
         r.open()?;
         if job["twin"].as_bool() == Some(true) {
@@ -276,11 +295,53 @@ impl Runner {
             return if self.last.is_empty() { self.clients.iter().map(|_| CsDump::default()).collect() } else { self.last.clone() };
         }
         let st = self.storage.as_ref().unwrap().clone();
+        if self.driver_kind == "sock" {
+            // a handler of the socket server may still sit on the storage lock (it is the code under test): the projection
+            // must not wait for it for ever.  A probe transaction is begun on a helper thread first.
+            let free = if self.stuck {
+                false
+            } else {
+                let st2 = st.clone();
+                let (tx, rx) = std::sync::mpsc::channel();
+                std::thread::spawn(move || {
+                    let ok = std::panic::catch_unwind(std::panic::AssertUnwindSafe(|| {
+                        let _ = st2.txn(Uuid::nil());
+                    }))
+                    .is_ok();
+                    let _ = tx.send(ok);
+                });
+                rx.recv_timeout(std::time::Duration::from_secs(12)).is_ok()
+            };
+            if !free {
+                self.stuck = true;
+                return self
+                    .clients
+                    .iter()
+                    .map(|_| {
+                        let mut d = CsDump::default();
+                        d.err.push("the stored state cannot be read: the storage lock is not released".to_string());
+                        d
+                    })
+                    .collect();
+            }
+        }
         let mut ds: Vec<CsDump> = self
             .clients
             .clone()
             .iter()
-            .map(|c| dump_client(st.as_ref(), *c, &mut self.namer, &self.pay, self.tb))
+            .map(|c| {
+                // reading the state goes through the code under test as well: if that panics (a poisoned lock, say), the state
+                // is unreadable - an observation, not the end of the run
+                let r = std::panic::catch_unwind(std::panic::AssertUnwindSafe(|| dump_client(st.as_ref(), *c, &mut self.namer, &self.pay, self.tb)));
+                match r {
+                    Ok(d) => d,
+                    Err(_) => {
+                        let mut d = CsDump::default();
+                        d.err.push("panic while reading the stored state".to_string());
+                        d
+                    }
+                }
+            })
             .collect();
         if self.backend == "sqlite" {
             sqlite_raw_extra(&self.dir, &self.clients, &mut ds, &mut self.namer);
@@ -428,8 +489,10 @@ impl Runner {
             st.push(Up { step: u.clone(), ci, a, tok, pieces, next: 0, conn: None });
         }
         let mut stop = false;
+        // what happened on the sockets, in order (replayed as the actions of spec/SyncUpload.tla by spec/TraceUpload.tla)
+        let mut phases: Vec<Value> = vec![];
         let order: Vec<i64> = s["order"].as_array().map(|a| a.iter().filter_map(|x| x.as_i64()).collect()).unwrap_or_default();
-        let finish = |me: &mut Runner, u: &mut Up, events: &mut Vec<(Value, Value)>, idx: usize| -> bool {
+        let finish = |me: &mut Runner, u: &mut Up, events: &mut Vec<(Value, Value)>, idx: usize| -> (bool, String) {
             let op = u.step["op"].as_str().unwrap_or("AddVersion").to_string();
             let res = match u.conn.take() {
                 Some(c) => c.finish(),
@@ -440,9 +503,38 @@ impl Runner {
                 Err(m) => (Out::Error { msg: format!("socket: {m}") }, None),
             };
             me.injected = Some(Injected { a: u.a, tok: u.tok, out, h });
+            let pre_snap = me.last.get(u.ci).map(|d| (d.s.has, d.s.vid)).unwrap_or((false, 0));
             let (ev, stop) = me.step(&u.step, idx);
+            // were the stored bytes this upload's bytes?
+            let kind = ev["resp"]["kind"].as_str().unwrap_or("").to_string();
+            let cst = &ev["st"][u.ci];
+            let obs = match kind.as_str() {
+                "ok" => {
+                    let vid = ev["resp"]["vid"].as_i64().unwrap_or(0);
+                    match cst["v"].as_array().and_then(|a| a.iter().find(|x| x["vid"].as_i64() == Some(vid))) {
+                        Some(x) if x["tok"].as_i64() == Some(u.tok) => "intact",
+                        _ => "altered",
+                    }
+                }
+                "snapok" => {
+                    let arg = ev["req"]["arg"].as_i64().unwrap_or(0);
+                    if cst["s"]["has"].as_bool() == Some(true) && cst["s"]["vid"].as_i64() == Some(arg) {
+                        if pre_snap == (true, arg) {
+                            "noinfo" // declined: a snapshot for this version was there already
+                        } else if cst["s"]["tok"].as_i64() == Some(u.tok) {
+                            "intact"
+                        } else {
+                            "altered"
+                        }
+                    } else {
+                        "noinfo"
+                    }
+                }
+                "conflict" | "nosuchclient" | "refused" => "noinfo",
+                _ => "error",
+            };
             events.push((u.step.clone(), ev));
-            stop
+            (stop, obs.to_string())
         };
         for o in order {
             if stop {
@@ -451,6 +543,10 @@ impl Runner {
             if o < 0 {
                 for b in s["between"].as_array().cloned().unwrap_or_default() {
                     let (ev, st2) = self.step(&b, idx);
+                    let served = !matches!(ev["resp"]["kind"].as_str().unwrap_or(""), "error" | "panic" | "timeout" | "none");
+                    if st.iter().any(|u| !u.step.is_null() && u.conn.is_some()) {
+                        phases.push(json!({"t": "probe", "r": 0, "ok": served}));
+                    }
                     events.push((b.clone(), ev));
                     if st2 {
                         stop = true;
@@ -470,6 +566,7 @@ impl Runner {
                 let c = self.clients[u.ci];
                 let head = vec![("X-Client-Id".to_string(), c.to_string().into_bytes()), ("Content-Type".to_string(), ct.as_bytes().to_vec())];
                 st[i].conn = crate::sock::Upload::begin(&addr, &format!("/v1/client/{route}/{}", u.a), &head).ok();
+                phases.push(json!({"t": "begin", "r": i + 1, "n": st[i].pieces.len()}));
             }
             let k = st[i].next;
             if k < st[i].pieces.len() {
@@ -478,13 +575,18 @@ impl Runner {
                     c.send(&piece);
                 }
                 st[i].next += 1;
+                if st[i].next < st[i].pieces.len() {
+                    phases.push(json!({"t": "piece", "r": i + 1}));
+                }
                 // give the server the time to take the piece in (the point of the exercise is what it does with it)
                 std::thread::sleep(std::time::Duration::from_millis(s["pause_ms"].as_u64().unwrap_or(15)));
             }
             if st[i].next == st[i].pieces.len() {
                 st[i].next += 1; // finished
                 let mut u = std::mem::replace(&mut st[i], Up { step: Value::Null, ci: 0, a: Uuid::nil(), tok: 0, pieces: vec![], next: 1, conn: None });
-                if finish(self, &mut u, &mut events, idx) {
+                let (st2, obs) = finish(self, &mut u, &mut events, idx);
+                phases.push(json!({"t": "apply", "r": i + 1, "obs": obs}));
+                if st2 {
                     stop = true;
                 }
             }
@@ -500,11 +602,21 @@ impl Runner {
                     c.send(&piece);
                 }
                 st[i].next += 1;
+                if st[i].next < st[i].pieces.len() {
+                    phases.push(json!({"t": "piece", "r": i + 1}));
+                }
             }
             let mut u = std::mem::replace(&mut st[i], Up { step: Value::Null, ci: 0, a: Uuid::nil(), tok: 0, pieces: vec![], next: 1, conn: None });
-            if u.conn.is_some() && finish(self, &mut u, &mut events, idx) {
-                stop = true;
+            if u.conn.is_some() {
+                let (st2, obs) = finish(self, &mut u, &mut events, idx);
+                phases.push(json!({"t": "apply", "r": i + 1, "obs": obs}));
+                if st2 {
+                    stop = true;
+                }
             }
+        }
+        if let Some(last) = events.last_mut() {
+            last.1["overlap"] = json!({"workers": self.job["workers"].as_u64().unwrap_or(2), "phases": phases});
         }
         (events, stop)
     }
@@ -531,6 +643,7 @@ impl Runner {
         }
         let cnum = s["c"].as_i64().unwrap_or(0);
         let ci = if cnum >= 1 { (cnum - 1) as usize } else { 0 };
+        let tok0 = self.pay.peek_tok();
         let lvl = self.driver.as_ref().map(|d| d.level()).unwrap_or("lib");
         let mut req = json!({"op": op, "c": cnum, "arg": 0, "tok": 0, "lvl": lvl});
         let mut resp = RespRec::kind("none");
@@ -787,10 +900,22 @@ impl Runner {
             (Some(a), true) => !a.contains(&cnum),
             _ => false,
         };
-        if self.twin.is_some() && !matches!(op.as_str(), "SetAllow" | "Raw") && !unlisted {
+        // payload tokens are numbered per runner: the twin draws the token the real run drew for this step, whatever steps
+        // it was spared before (refused uploads, raw requests)
+        let tok_now = self.pay.peek_tok();
+        // (a client record written directly into the storage is no request: the twin gets it whether or not the client is listed)
+        if self.twin.is_some() && !matches!(op.as_str(), "SetAllow" | "Raw") && (!unlisted || op == "NewClient") {
             let t = self.twin.as_mut().unwrap();
+            while t.pay.peek_tok() < tok0 {
+                t.pay.fresh_tok();
+            }
             let (tev, _) = t.step(s, idx);
             twin_json = Some(json!({"resp": tev["resp"], "st": tev["st"]}));
+        }
+        if let Some(t) = self.twin.as_mut() {
+            while t.pay.peek_tok() < tok_now {
+                t.pay.fresh_tok();
+            }
         }
         // divergence from the planned edge?  A different RESPONSE stops the tour (later planned
         // requests quote ids the plan expected to be issued); a different STATE is only recorded.
@@ -938,6 +1063,8 @@ impl Runner {
             "empty" => "/".to_string(),
             "none" => "".to_string(),
             "extra" => format!("/{arg}/extra"),
+            "pctbad" => "/%ff%fe%c3%28".to_string(),
+            "verylong" => format!("/{}", "0123456789abcdef-".repeat(18)),
             _ => format!("/{arg}"),
         };
         let uri = match route {
@@ -968,6 +1095,10 @@ impl Runner {
             "simple" => headers.push(("X-Client-Id".into(), cu.simple().to_string().into_bytes())),
             "upper" => headers.push(("X-Client-Id".into(), cs.to_uppercase().into_bytes())),
             "spaces" => headers.push(("X-Client-Id".into(), format!(" {cs} ").into_bytes())),
+            "longnonascii" => headers.push(("X-Client-Id".into(), vec![0xff; 40])),
+            "longutf8" => headers.push(("X-Client-Id".into(), "x\u{e9}".repeat(40).into_bytes())),
+            "longascii" => headers.push(("X-Client-Id".into(), "a1-".repeat(100).into_bytes())),
+            "idjunk" => headers.push(("X-Client-Id".into(), format!("{cs}{}", "\u{20ac}".repeat(12)).into_bytes())),
             _ => headers.push(("X-Client-Id".into(), cs.clone().into_bytes())),
         }
         let right = match route {
@@ -1054,6 +1185,10 @@ pub fn run_job(job: &Value, scratch: &std::path::Path, w: &mut dyn Write) -> any
         Err(e) if job["start_may_fail"].as_bool() == Some(true) => {
             // a configuration the server may legitimately refuse to start with (e.g. an address it cannot bind)
             return Ok(json!({"id": job["id"], "run": job["run"], "steps": 0, "planned": 0, "div_at": -1, "start_failed": format!("{e:#}")}));
+        }
+        Err(e) if job["driver"] == "bin" && (format!("{e:#}").contains("server exited at start-up") || format!("{e:#}").contains("server did not accept connections")) => {
+            // the real executable did not come up with this configuration: an observation about the code under test
+            return Ok(json!({"id": job["id"], "run": job["run"], "steps": 0, "planned": 0, "div_at": -1, "start_refused": format!("{e:#}")}));
         }
         Err(e) => return Err(e),
     };
